@@ -79,7 +79,7 @@ def main():
     else:
         root = args[0]
         for pid in sorted(os.listdir(root)):
-            if not pid.startswith("C"):
+            if not pid.startswith("C") or not os.path.isdir(os.path.join(root, pid)):
                 continue
             for k in sorted(os.listdir(os.path.join(root, pid))):
                 p = os.path.join(root, pid, k)
